@@ -398,10 +398,8 @@ def WellFormed : Ev → Bool
   | .byParty overall alloc =>
       WellFormed overall && (takes overall).seats
       && (match alloc with
-          | some al => WellFormed al && (takes al).seats && (acceptsPrevGains al == (takes al).prev)
-                         && ((takes al).prev == (takes al).max)
-          | Option.none => (acceptsPrevGains overall == (takes overall).prev)
-                         && ((takes overall).prev == (takes overall).max))
+          | some al => WellFormed al && takesAll al && (acceptsPrevGains al == (takes al).prev)
+          | Option.none => takesAll overall && (acceptsPrevGains overall == (takes overall).prev))
   | .multistage rounds _ => WellFormedList rounds true
   | .unusedVotes rounds _ _ => WellFormedList rounds false
   | .partyList party _ _ => WellFormed party && (takes party).seats
